@@ -1250,6 +1250,15 @@ pub fn generate_c13(tier: &str, seed: u64, out: &mut Out) {
                 }
             }
         }
+        // the twins as LEADING alternatives of two entries whose later alternatives differ the other way
+        // round: the entries are ordered by their alternatives as relations (twins compare equal, so the
+        // second alternative decides), the textual tie-break comes after the whole comparison
+        for (l, r) in [(x, y), (y, x)] {
+            for (t1, t2) in [("c", "b"), ("b", "c"), ("b (>= 2)", "b"), ("b", "b")] {
+                out.req("rel.wrap", &[es(&format!("{} | {}, {} | {}", l, t1, r, t2)), "0".into()]);
+                out.req("rel.wrap", &[es(&format!("{} | {}, {} | {}, {}", l, t1, r, t2, l)), "0".into()]);
+            }
+        }
     }
     // terms of a bracket group separated by every kind of blank: space, tab, bare newline, newline
     // plus indentation, several of them
